@@ -238,6 +238,19 @@ impl<K, V> Table<K, V> {
     }
 }
 
+#[cfg(flurry_verif)]
+impl<K, V> Table<K, V> {
+    pub(crate) fn verif_bins(&self) -> &[Atomic<BinEntry<K, V>>] {
+        &self.bins
+    }
+    pub(crate) fn verif_moved(&self) -> &Atomic<BinEntry<K, V>> {
+        &self.moved
+    }
+    pub(crate) fn verif_next_table(&self) -> &Atomic<Table<K, V>> {
+        &self.next_table
+    }
+}
+
 impl<K, V> Drop for Table<K, V> {
     fn drop(&mut self) {
         // safety: we have &mut self _and_ all references we have returned are bound to the
